@@ -470,8 +470,10 @@ class ChargingNetwork(BaseSimObj):
             schedule_matrix = schedule_matrix[:, time_indices]
 
         if linear:
+            # Absolute value of all load coefficients, as documented: conservative for
+            # non-negative schedules even when a constraint has mixed-sign coefficients.
             return np.abs(
-                self.constraint_matrix[constraint_indices] @ schedule_matrix
+                np.abs(self.constraint_matrix[constraint_indices]) @ schedule_matrix
             ).astype("complex")
         else:
             # build vector of phase angles on EVSE
